@@ -367,6 +367,74 @@ class WriteProxy:
             pass
 
 
+class FaultyRaw(io.FileIO):
+    """Read-mode raw file that becomes unreadable `limit` bytes into the file (a medium error, a stale
+    network file handle): bytes before the limit are delivered (short reads), a read that needs the byte at
+    the limit gets EIO.  The fault *fires* only when a consumer really asks for bytes it cannot get; read-ahead
+    of a buffered reader is served short without firing."""
+
+    def __init__(self, path, limit, ctx, kind="EIO-MID"):
+        super().__init__(path, "rb")
+        self._limit = limit
+        self._ctx = ctx
+        self._kind = kind
+        self._path = os.fspath(path)
+
+    def fire(self):
+        ctx = self._ctx
+        ap = _path_of(self._path)
+        ctx.faults_fired.append((-1, "read", self._kind, ctx.rel(ap), ctx.actor))
+        ctx.stats[f"fault.read.{self._kind}"] += 1
+        ctx.ev("fault", "read", self._kind, ctx.rel(ap), "at", self._limit, ctx.actor)
+        raise OSError(errno.EIO, os.strerror(errno.EIO) + " (injected)", self._path)
+
+    def readable_span(self, pos, nbytes):
+        """How many of the `nbytes` bytes at `pos` can be read (for seams that bypass this object)."""
+        return max(0, min(nbytes, self._limit - pos))
+
+    def readinto(self, b):
+        pos = self.tell()
+        if pos >= self._limit:
+            self.fire()
+        n = min(len(b), self._limit - pos)
+        return super().readinto(memoryview(b)[:n])
+
+    def read(self, size=-1):
+        pos = self.tell()
+        if pos >= self._limit:
+            self.fire()
+        if size is None or size < 0:
+            return self.readall()
+        return super().read(min(size, self._limit - pos))
+
+    def readall(self):
+        # read-until-EOF has to cross the bad region
+        self.fire()
+
+
+def _faulty_open(file, mode, ctx, spec, k):
+    kind, where = spec
+    size = os.path.getsize(file)
+    if size < 2:
+        return None
+    if where == "first-byte":
+        limit = 0
+    elif where == "last-byte":
+        limit = size - 1
+    elif where == "middle":
+        limit = size // 2
+    else:                           # just after the first line (the header line of the first FAB)
+        with _REAL_OPEN(file, "rb") as fh:
+            limit = min(len(fh.readline()), size - 1)
+    raw = FaultyRaw(file, limit, ctx, kind)
+    if "b" in mode and k.get("buffering", -1) == 0:
+        return raw
+    buf = io.BufferedReader(raw)
+    if "b" in mode:
+        return buf
+    return io.TextIOWrapper(buf, encoding=k.get("encoding"), errors=k.get("errors"), newline=k.get("newline"))
+
+
 def _is_write_mode(mode):
     return any(c in mode for c in "wax+")
 
@@ -387,7 +455,12 @@ def _sim_open(real_open):
         # read side: only "unreadable input" faults, decided by path
         if ctx.read_fault_paths:
             ap = _path_of(file)
-            if ap in ctx.read_fault_paths:
+            if ap in ctx.read_fault_paths and isinstance(ctx.read_fault_paths[ap], tuple):
+                f = _faulty_open(file, mode, ctx, ctx.read_fault_paths[ap], k)
+                if f is not None:
+                    ctx.stats["fault.read.armed"] += 1
+                    return f
+            elif ap in ctx.read_fault_paths:
                 fk = ctx.read_fault_paths[ap]
                 ctx.faults_fired.append((-1, "read-open", fk, ctx.rel(ap), ctx.actor))
                 ctx.stats[f"fault.read-open.{fk}"] += 1
